@@ -255,7 +255,9 @@ def _synset(ss, w, st, v):
 def _frame(sb, w, st, lexlevel):
     w('<SyntacticBehaviour%s/>\n' % attrs(
         [('id', sb.get('id')), ('subcategorizationFrame', sb['subcategorizationFrame']),
-         ('senses', ' '.join(sb['senses']) if (sb.get('senses') and not lexlevel) else None)], st))
+         # (the generators put `senses` on entry-level frames only; a lexicon-level frame that has the attribute as well
+         # — the DTDs of 1.1+ allow it — is written only for the crafted C07 case)
+         ('senses', ' '.join(sb['senses']) if sb.get('senses') else None)], st))
 
 
 def simple_lexicon(lid, version='1', language='en', **kw):
